@@ -354,7 +354,7 @@ impl Report {
             let _ = writeln!(out, "{line}");
             let _ = out.flush();
         }
-        self.violations < 200
+        self.violations < MAX_VIOLATIONS_PER_WORKER
     }
 
     pub fn finish(&self) {
